@@ -417,7 +417,10 @@ Plan gen_run(u64 seed, u64 idx, const RunCtx & ctx)
   i64 mdl = r.chance(0.25) ? r.range(1, 4) : 0;
   i64 bst = r.chance(0.8) ? (i64)r.below(4) : 4;
   if (bst == 4 && r.chance(0.7)) bst = 0;
+  // a few large runs: anything that only happens beyond a block/buffer boundary (1000 events, 8 KiB, 64 KiB ...)
+  if (cat == 2 && n > 0 && r.chance(ctx.tier == "thorough" ? 0.03 : 0.006)) n = r.pick(std::vector<i64>{1000, 1001, 1024, 1500, 2500, 4097});
   i64 logging = r.chance(0.75) ? 0 : (r.chance(0.8) ? r.range(1, 3) : r.range(4, 5));
+  if (n > 100 && logging == 3) logging = 2;
   if (logging == 3 && n > 6) n = 6; // debug logging prints every event
   c.a = {cat, level, mode, emin, emax, seedv, n, act, mdl, bst, logging}; c.s = {nuc};
   p.ops.push_back(c);
